@@ -191,8 +191,6 @@ Qed.
 (* not_(P) and P never hash alike (Notted.phash prefixes the mark), so sibling views that differ
    only by not_() around one predicate are distinct registrations *)
 
-Lemma phash_of_final_pred_ok : phash_of_final_pred = true.
-Proof. reflexivity. Qed.
 
 Lemma not_mark_nonempty : (0 < length not_mark)%nat.
 Proof. vm_compute. lia. Qed.
